@@ -41,6 +41,7 @@ SITES = [
     # multislice_and_detect
     _s("mNoTable", _MS, "multislice_and_detect", ("iftest", "extra_ensemble_axes_shape", 0), ["total", "last", "n"],
        {"sum(extra_ensemble_axes_shape)": "total", "potential.exit_planes[-1]": "last", "potential.num_slices": "n"}, "Bool"),
+    _s("mReset", _MS, "multislice_and_detect", ("iftest", "i > 0", 0), ["i"], {"i": "i"}, "Bool"),
     _s("mEntrance", _MS, "multislice_and_detect", ("iftest", "exit_planes[0]", 0), ["first"],
        {"potential.exit_planes[0]": "first"}, "Bool"),
     # _validate_potential_ensemble_indices / _potential_ensemble_shape_and_metadata
